@@ -29,6 +29,12 @@ def tasks(tier, seed):
                                        ('debug-logging', 'misc')]
 
 
+def env_tasks(tier, seed):
+    """What is repeated in an interpreter started with other flags (-bb)."""
+    return [('rep',), ('misc',), ('debug-logging', 'rep'),
+            ('debug-logging', 'misc')]
+
+
 def check_prefix(ctx, prefix, label, cut):
     p = lib.pamqp()
     try:
